@@ -27,6 +27,8 @@ import (
 	"testing"
 	"time"
 
+	"git.torproject.org/pluggable-transports/snowflake.git/v2/common/ipsetsink"
+	"git.torproject.org/pluggable-transports/snowflake.git/v2/common/ipsetsink/sinkcluster"
 	"git.torproject.org/pluggable-transports/snowflake.git/v2/common/messages"
 	vh "git.torproject.org/pluggable-transports/snowflake.git/v2/common/zzverif"
 	"github.com/prometheus/client_golang/prometheus"
@@ -1114,12 +1116,87 @@ func c19ipcTimers(r *vh.Run, done chan<- struct{}) {
 	d.check("timers")
 }
 
+type c19SyncBuf struct {
+	mu sync.Mutex
+	b  bytes.Buffer
+}
+
+func (x *c19SyncBuf) Write(p []byte) (int, error) {
+	x.mu.Lock()
+	defer x.mu.Unlock()
+	return x.b.Write(p)
+}
+func (x *c19SyncBuf) Sync() error    { return nil }
+func (x *c19SyncBuf) String() string { x.mu.Lock(); defer x.mu.Unlock(); return x.b.String() }
+
+// c19Journal: the glue between the poll handler and the distinct-IP journal. Proxies keep polling through the day;
+// every journal chunk must count the addresses that polled WHILE IT WAS BEING RECORDED, also those that had polled
+// before in the same metrics period.
+func c19Journal(r *vh.Run, done chan struct{}) {
+	defer close(done)
+	ctx := NewBrokerContext(NullLogger())
+	go ctx.Broker()
+	ipc := &IPC{ctx}
+	buf := &c19SyncBuf{}
+	w := sinkcluster.NewClusterWriter(buf, time.Second, ipsetsink.NewIPSetSink("c19 masking key"))
+	ctx.metrics.SetIPAddressRecorder(w)
+	var wg sync.WaitGroup
+	n := 0
+	poll := func(addr string) {
+		n++
+		body, _ := messages.EncodeProxyPollRequestWithRelayPrefix(fmt.Sprintf("journal-%d", n), "standalone", "restricted", 0, "")
+		wg.Add(1)
+		go func() {
+			defer wg.Done()
+			var resp []byte
+			ipc.ProxyPolls(messages.Arg{Body: body, RemoteAddr: net.JoinHostPort(addr, "443")}, &resp)
+		}()
+		time.Sleep(40 * time.Millisecond) // the handler has recorded the address (it then idles into its timeout)
+	}
+	chunks := [][]string{{"129.97.208.23", "129.97.208.24"}, {"129.97.208.23", "10.1.2.3", "129.97.208.23"}, {"129.97.208.24"}, {"fe80::1%eth0", "129.97.208.23"}}
+	for i, c := range chunks {
+		if i > 0 {
+			time.Sleep(1300 * time.Millisecond) // past the writer's interval: the next address starts a new chunk
+		}
+		for _, a := range c {
+			poll(a)
+		}
+	}
+	time.Sleep(1300 * time.Millisecond)
+	poll("127.0.0.1") // flushes the fourth chunk
+	var got []string
+	for _, line := range strings.Split(strings.TrimSpace(buf.String()), "\n") {
+		var e struct {
+			RecordingStart, RecordingEnd time.Time
+		}
+		if json.Unmarshal([]byte(line), &e) != nil {
+			got = append(got, "unreadable")
+			continue
+		}
+		res, err := sinkcluster.NewClusterCounter(e.RecordingStart, e.RecordingEnd).Count(strings.NewReader(buf.String()))
+		if err != nil {
+			got = append(got, "error:"+err.Error())
+			continue
+		}
+		got = append(got, fmt.Sprintf("%d", res.Sum))
+	}
+	line := "polls from [A B] | [A C A] | [B] | [zoned A] | [loopback], a new journal chunk before each group (writer interval 1 s); distinct addresses per chunk"
+	r.Case("journal/repeated-addresses-across-chunks", line, true)
+	if want := "2,2,1,2"; strings.Join(got, ",") != want {
+		r.OracleFail("journal-chunk-counts-wrong", line, strings.Join(got, ","), "each chunk counts the distinct addresses that polled while it was recorded: "+want)
+	}
+	wg.Wait()
+}
+
 func TestVerifC19Broker(t *testing.T) {
 	r := vh.Start("C19")
 	defer r.Finish()
 	log.SetOutput(io.Discard)
 	defer log.SetOutput(os.Stderr)
 	pool := c19pool()
+	journal := make(chan struct{})
+	go c19Journal(r, journal)
+	defer func() { <-journal }()
 	timers := make(chan struct{})
 	go c19ipcTimers(r, timers)
 	c19binCount(r)
